@@ -39,6 +39,10 @@ class DirectFirmware:
 
     def receive(self, line):
         self.wire.append(line)
+        if line.startswith(("N", "M110")) and "M110" in line and getattr(self, "hs_error", False) and not getattr(self, "hs_error_sent", False):
+            # a controller that is already up behind a bridge refuses the line-number reset of the handshake
+            self.hs_error_sent = True
+            return self._out([("error:20", ("hs-err", line))])
         if line == "G4 P0" and getattr(self, "hs_report", False):
             # a printer that was not reset by the connection answers the probing G4 P0 with an ok that carries a report
             return self._out([("ok T:21.5 /0.0 B:22.25 /0.0", ("hs", line))])
@@ -92,6 +96,7 @@ def _run_execution(cfg, prefix, record=False):
     stmts = cfg["statements"]
     fw = DirectFirmware(cfg["behaviours"], greeting=cfg["greeting"])
     fw.hs_report = bool(cfg.get("hs_report"))
+    fw.hs_error = bool(cfg.get("hs_error"))
     script = {"flow_control": cfg.get("mode", "serial") == "socket"}
     if "loss" in cfg["behaviours"]:
         # the connection drops when the k-th user statement is written: count handshake writes at run time
@@ -185,6 +190,13 @@ def check_execution(cfg, ex, marks, leaked):
     stmts, beh = cfg["statements"], cfg["behaviours"]
     # threads that did not unwind in time after an abort are a property of the harness and of machine load,
     # never a verdict about gscrib: they are counted by the caller, not reported
+    if cfg.get("hs_error"):
+        # the device answered the handshake with an error reply: connect() reports it (it neither hangs nor pretends all is well)
+        if S.status != "done":
+            P.append((f"hang-during-connect:{S.status}", f"connect() never returned after the device refused the handshake ({S.status} after {S.steps} steps)"))
+        elif "connect_exc" not in marks and not any(isinstance(c.get("exc"), Exception) for c in marks.get("calls", [])):
+            P.append(("handshake-error-not-raised", "the device answered M110 with error:20; neither connect() nor the first write() raised"))
+        return P
     if "connect_exc" in marks:
         if S.timeouts_fired:
             return P        # the connection time-out was made to expire: connect() is entitled to give up
@@ -426,6 +438,10 @@ def plan(tier):
                  ("int-report-in-ok", "report+ok"), ("ok", "int-report-in-ok"), ("alarm-status+ok", "ok"), ("ok", "alarm-status+ok")):
         for c in cfgs(two, behs, ("Q", "L"), (None,), (False, True), True):
             items.append((c, 0 if tier == "quick" else 1, None))
+    for c in cfgs(two, ("ok", "ok"), ("Q", "L"), (None, "start"), (False, True), True):
+        items.append(({**c, "hs_error": True}, 0, None))
+    for c in cfgs(two, ("ok", "ok"), ("Q",), (None,), (False,), False):
+        items.append(({**c, "hs_error": True}, 1, None))
     for behs in (("ok", "report+ok"), ("error", "ok"), ("probe+ok", "alarm")):
         for c in cfgs(two, behs, ("Q", "L"), (None,), (False, True), True):
             items.append(({**c, "debug_log": True}, 0, None))
